@@ -8,8 +8,8 @@ from fractions import Fraction as Fr
 import numpy as np
 from vf import core
 from vf.ref import dims, c19_dimtable as DT
-from vf.gen import c19_spell as SP, c19_hist as HG
-from vf.monitors import c19_history as HM
+from vf.gen import c19_spell as SP, c19_hist as HG, c19_shape as SG
+from vf.monitors import c19_history as HM, c19_shape as SM
 from .common import chunks
 
 RULE = ("one evaluation = one call of a helper (allclose_units, assert_allclose_units, np.allclose, np.isclose, np.array_equal, "
@@ -26,7 +26,16 @@ RULE = ("one evaluation = one call of a helper (allclose_units, assert_allclose_
         "return forms; symbol against an ordinary unit, symbol against the same symbol of another registry, atol written in the symbol); "
         "the verdict is compared with the reference as above and, for every 2nd (thorough: 4th) step and for every step judged wrong, "
         "with the verdict of the same single call in a process that has executed nothing else; distinct additionally = (scenario, "
-        "stated dimension is this/the other definition, call order, same/new function, position in the history | operand profile)")
+        "stated dimension is this/the other definition, call order, same/new function, position in the history | operand profile).  "
+        "Shape part (shape, shape-random): one evaluation = one call of a closeness/equality helper on two operands of DIFFERENT "
+        "size that broadcast (0-d, size-1, partial against full; first or second operand the small one; equal size but different "
+        "shape; same-shape controls) written in two commensurable units (both orders), with every tolerance spelling (default, bare, "
+        "quantity in the first operand's unit, in the second's, in a third unit; rtol zero/default/bare) and the difference placed at "
+        "zero, well/just inside, just/well/far outside the tolerance - for a bare or default atol relative to both of its possible "
+        "readings and between them - judged (a) against the SI verdict as above and (b) against the verdict of the same call with "
+        "both operands written out at the common shape (elementwise for np.isclose), which must be identical; (b) is judged only when "
+        "every element is at least 64 eps from the boundary under each reading; distinct additionally = (size relation, the two "
+        "shapes, tolerance spelling, placement, which operand carries the difference)")
 ASSUMPTIONS = (
     "scales/dimensions of every unit spelling come from vf/ref (defs, names, uexpr); a spelling whose unyt base_value or dimension "
     "disagrees with the reference (subject of C02/C14/C20) is dropped from the pools and counted, not judged here",
@@ -72,6 +81,12 @@ ASSUMPTIONS = (
     "the reference scales (equal definition -> equal units; other scale or other dimension -> different units, whatever the "
     "spelling); pairs of an SI and a Gaussian electromagnetic dimension are not used there (EM route, as for the pools); only "
     "default rtol/atol, and rtol=0 with an atol written in the symbol, are driven in histories",
+    "operand shapes: writing an operand as a 0-d / size-1 / partial array or as the same values at the common shape is a spelling of "
+    "the same physical comparison, so the verdict (elementwise for np.isclose) must be the same; in particular a bare or default "
+    "atol of np.allclose/np.isclose may be read in either operand's unit (see above) but the reading has to follow the operand "
+    "positions, not their sizes: the law compares two real calls and never needs to know which reading the library uses; a wrong "
+    "SI verdict whose explicitly broadcast twin is judged right is keyed :shape-asymmetric:<size relation>; offset units are not "
+    "used in the shape part",
 )
 MIN_EVALS = 3000
 TIMEOUT = 1500
@@ -751,6 +766,271 @@ def equal_cases(rec, unyt, r, fam, pool, wrong_pool, n_random, fns):
         run_equal(rec, unyt, ua, ub, ka, kb, ra, rb, prof, fns)
 
 
+# ------------------------------------------------------------------------------------------------ operand shape asymmetry
+SHAPE_QUICK_FAMS = ["length", "mass", "time", "energy", "dimensionless", "frequency"]
+SHAPE_MORE_FAMS = ["velocity", "pressure", "angle", "charge_mks", "force", "power"]
+
+
+def shape_unit_pairs(pool, npairs):
+    """ordered (first unit, second unit, third unit) with different scales; every pair also the other way round"""
+    out, n = [], len(pool)
+    for i in range(n):
+        for j in range(i + 1, n):
+            if abs(pool[i].a / pool[j].a - 1.0) <= 1e-3:
+                continue
+            ks = [k for k in range(n) if k not in (i, j)]
+            ks.sort(key=lambda k: (abs(pool[k].a / pool[i].a - 1.0) <= 1e-3) + (abs(pool[k].a / pool[j].a - 1.0) <= 1e-3))
+            ut = pool[ks[0]] if ks else pool[i]
+            out += [(pool[i], pool[j], ut), (pool[j], pool[i], ut)]
+            if len(out) >= npairs:
+                return out
+    return out
+
+
+_UNITS = {}
+
+
+def shape_unit(unyt, u):
+    """the unyt Unit of a spelling, parsed once per process (the parser is the subject of C20, not of this part)"""
+    k = u.s
+    if k not in _UNITS:
+        _UNITS[k] = unyt.Unit(k)
+    return _UNITS[k]
+
+
+def shape_operand(unyt, kind, readings, u):
+    x = np.array(readings, dtype="f8")
+    if kind == "qty" and x.shape == ():
+        return unyt.unyt_quantity(float(x), shape_unit(unyt, u)), x
+    if kind == "arr":
+        return unyt.unyt_array(x.copy(), shape_unit(unyt, u)), x
+    return make_operand(unyt, kind, readings, u)
+
+
+def shape_kind(r, shape, plain):
+    if shape == ():
+        return r.choice(["qty", "arr"])
+    # 'restored' rarely: every unpickled array brings its own registry, whose first hash costs milliseconds
+    return "arr" if plain else r.choice(["arr"] * 6 + ["mul"] * 3 + ["view"] * 3 + ["restored"])
+
+
+def shape_tolerances(unyt, cfg, group, ua, ub, ut, c, mag, r):
+    """-> (rk, rtol object, rtol value, ak, atol object, t_opts used by the judge, readings for the placements, atol unit tag)"""
+    name, rk, rtol, ak, profile = cfg
+    npf = group == "np"
+    if rk == "default":
+        rt_obj, rt_val = None, (1e-5 if npf else 1e-7)
+    else:
+        rt_obj, rt_val = float(rtol), float(rtol)
+    t_base = mag * 10 ** r.uniform(-3, -1)
+    if ak == "default":
+        at_obj = None
+        if npf:
+            t_opts = [1e-8 * ua.a, 1e-8 * ub.a]        # numpy's own default, a bare number
+            reads = list(t_opts)
+        else:
+            t_opts, reads = [0.0], [0.0]
+        return rk, rt_obj, rt_val, "default", at_obj, t_opts, reads, "none"
+    if ak == "bare":
+        x = float(t_base / ub.a)
+        both = [x * ub.a, x * ua.a]
+        # placements are laid out against both readings for every helper: for allclose_units the reading in actual's unit is
+        # the WRONG one, and a value between the two tells them apart
+        return rk, rt_obj, rt_val, "bare", x, (both if npf else [x * ub.a]), both, "bare"
+    u = {"qty-a": ua, "qty-b": ub, "qty-t": ut}[ak]
+    val = float(t_base / u.a)
+    at_obj = val * shape_unit(unyt, u) if r.random() < 0.3 else unyt.unyt_quantity(val, shape_unit(unyt, u))
+    t = val * u.a
+    return rk, rt_obj, rt_val, "qty", at_obj, [t], [t], {"qty-a": "in-first-unit", "qty-b": "in-second-unit", "qty-t": "in-third-unit"}[ak]
+
+
+def shape_cfg(rec, unyt, r, fam, ua, ub, ut, sa, sb, cfg, state, plain=True, only_labels=None):
+    """one (unit pair, shape pair, tolerance spelling): every placement of the difference, both helper groups"""
+    name, rk0, rtol0, ak0, profile = cfg
+    rel = SG.relation(sa, sb)
+    full = SG.full_shape(sa, sb)
+    ref = max(ua.a, ub.a)
+    c = 0.0 if profile == "zero" else r.choice([-1.0, 1.0]) * 10 ** r.uniform(0, 2) * ref
+    mag = abs(c) or ref
+    eps = eps_kind("arr")
+    for group, fns in (("np", ("np.isclose", "np.allclose")), ("units", ("allclose_units", "assert_allclose_units"))):
+        rk, rt_obj, rt_val, ak, at_obj, t_opts, reads, atag = shape_tolerances(unyt, cfg, group, ua, ub, ut, c, mag, r)
+        T = [t + rt_val * abs(c) for t in reads]
+        for label, diff in SG.placements(min(T), max(T), rt_val > 0):
+            if only_labels is not None and label not in only_labels and label != "any-difference":
+                continue
+            if diff is None:
+                diff = 1e-6 * mag
+            state["n"] += 1
+            perturb = "ab"[state["n"] % 2]
+            sign = (1.0, -1.0)[(state["n"] // 2) % 2]
+            a_si, b_si, k = SG.layout(r, sa, sb, c, diff, min(T), perturb, sign)
+            with np.errstate(all="ignore"):
+                ra0, rb0 = a_si / ua.a, b_si / ub.a
+            allv = np.concatenate([np.abs(ra0).ravel(), np.abs(rb0).ravel(), [abs(t) / s_ for t in t_opts for s_ in (ua.a, ub.a)]])
+            allv = allv[allv > 0]
+            if allv.size and (allv.min() < 1e-250 or allv.max() > 1e250 or not np.isfinite(allv).all()):
+                rec.count("discarded:shape:outside-float-range")
+                continue
+            ka, kb = shape_kind(r, sa, plain), shape_kind(r, sb, plain)
+            a, ra = shape_operand(unyt, ka, ra0, ua)
+            b, rb = shape_operand(unyt, kb, rb0, ub)
+            twin = None
+            if rel != "same-shape":
+                fa, _ = shape_operand(unyt, "arr", np.broadcast_to(ra, full).copy(), ua)
+                fb, _ = shape_operand(unyt, "arr", np.broadcast_to(rb, full).copy(), ub)
+                twin = (fa, fb, np.broadcast_to(ra, full).copy(), np.broadcast_to(rb, full).copy())
+            form = ("kw", "pos")[(state["n"] // 4) % 2]
+            case = {"family": fam, "first": [ka, ua.s, list(sa)], "second": [kb, ub.s, list(sb)], "relation": rel, "tolerances": name,
+                    "rtol": rt_obj, "atol": at_obj, "placement": label, "perturbed-operand": perturb,
+                    "first_readings": np.asarray(ra).tolist(), "second_readings": np.asarray(rb).tolist()}
+            cellx = ("shape", rel, str(sa), str(sb), name, label, "perturb-" + perturb)
+            # is every element decided under each single reading of the tolerance?  (law judged only then)
+            per_reading = [close_verdict(ra, ua, rb, ub, rt_val, [t], eps) for t in t_opts]
+            settled = all((v >= 0).all() for v in per_reading)
+            between = settled and len(per_reading) == 2 and bool((per_reading[0] != per_reading[1]).any())
+            for fn in fns:
+                if fn == "assert_allclose_units" and state["n"] % 3:
+                    continue                      # a thin wrapper of allclose_units: a third of the cases
+                cap = HM.CapRec()
+                judge_close(cap, unyt, fn, form, a, b, ka, kb, ra, rb, ua, ub, rk, rt_obj, rt_val, ak, at_obj, t_opts, None, fam, case)
+                cap2 = None
+                if twin is not None and SM.violated(cap.events):
+                    cap2 = HM.CapRec()
+                    judge_close(cap2, unyt, fn, form, twin[0], twin[1], "arr", "arr", twin[2], twin[3], ua, ub, rk, rt_obj, rt_val, ak,
+                                at_obj, t_opts, None, fam, case)
+                SM.replay(rec, cap.events, cellx, rel, None if cap2 is None else cap2.events)
+                rec.count("sub:shape-rel:" + rel)
+                if twin is None:
+                    continue
+                if not settled:
+                    rec.count("discarded:shape:law-near-boundary")
+                    continue
+                extra_kw = {}
+                og = outcome_close(fn, unyt, a, b, rt_obj, at_obj, form, extra_kw)
+                ot = outcome_close(fn, unyt, twin[0], twin[1], rt_obj, at_obj, form, extra_kw)
+                same, text = SM.same_verdict(fn, og, ot, full)
+                rec.count("sub:shape-law:" + fn)
+                if between:
+                    rec.count("sub:shape-law:between-readings")
+                if same:
+                    rec.ok(("shape-law", fn, rel, str(sa), str(sb), name, label, "between-readings" if between else "readings-agree"))
+                else:
+                    tc = {"default": "atol-default", "bare": "atol-bare", "qty": "atol-qty"}[ak]
+                    rec.violation(f"C19:{fn}:verdict-depends-on-operand-shape:{tc}:{rel}",
+                                  f"{fn}({show(a)}, {show(b)}, rtol={show(rt_obj)}, atol={show(at_obj)}): {text}; the same values, units and "
+                                  f"tolerances, only the operands written at shapes {sa} / {sb} instead of {full}", case)
+
+
+def shape_incommensurable(rec, unyt, r, fam, ua, w, sa, sb, fns):
+    """operands of different dimension are refused whatever their shapes"""
+    rel = SG.relation(sa, sb)
+    ra0 = np.full(sa, 1.0)
+    rb0 = np.full(sb, 1.0)
+    ka, kb = shape_kind(r, sa, True), shape_kind(r, sb, True)
+    for (u1, u2) in ((ua, w), (w, ua)):
+        a, ra = shape_operand(unyt, ka, ra0, u1)
+        b, rb = shape_operand(unyt, kb, rb0, u2)
+        if u1.s is None or u2.s is None:
+            continue
+        forced = "incommensurable-operands" if (u1.dim != dims.ZERO and u2.dim != dims.ZERO) else "dimensionless-vs-dimensional-operands"
+        case = {"family": fam, "first": [ka, u1.s, list(sa)], "second": [kb, u2.s, list(sb)], "relation": rel}
+        for fn in fns:
+            cap = HM.CapRec()
+            judge_close(cap, unyt, fn, "kw", a, b, ka, kb, ra, rb, u1, u2, "default", None, 0.0, "default", None, [0.0], forced, fam, case)
+            SM.replay(rec, cap.events, ("shape", rel, str(sa), str(sb), "incommensurable"), rel)
+
+
+def shape_equal(rec, unyt, r, fam, ua, ub, sa, sb, fns):
+    """array_equal / array_equiv / assert_array_equal_units on operands of different shape: equal units and equal values decide,
+    array_equiv must give the answer it gives for the operands written at the common shape"""
+    rel = SG.relation(sa, sb)
+    full = SG.full_shape(sa, sb)
+    c = r.choice([-1.0, 1.0]) * round(10 ** r.uniform(0, 2), 3)
+    for prof in ("same-readings", "one-reading-differs"):
+        ra0 = np.full(sa, c)
+        rb0 = np.full(sb, c)
+        if prof == "one-reading-differs":
+            big = rb0 if SG.size(sb) >= SG.size(sa) else ra0
+            if big.shape == ():
+                big = big * (1.0 + 1e-3)
+                if SG.size(sb) >= SG.size(sa):
+                    rb0 = big
+                else:
+                    ra0 = big
+            else:
+                big.flat[r.randrange(big.size)] *= 1.0 + 1e-3
+        ka, kb = shape_kind(r, sa, True), shape_kind(r, sb, True)
+        cap = HM.CapRec()
+        run_equal(cap, unyt, ua, ub, ka, kb, ra0, rb0, prof, fns)
+        SM.replay(rec, cap.events, ("shape", rel, str(sa), str(sb)), rel)
+        if rel == "same-shape" or "np.array_equiv" not in fns or unit_relation(ua, ub) is None:
+            continue
+        a, _ = shape_operand(unyt, ka, ra0, ua)
+        b, _ = shape_operand(unyt, kb, rb0, ub)
+        fa, _ = shape_operand(unyt, "arr", np.broadcast_to(ra0, full).copy(), ua)
+        fb, _ = shape_operand(unyt, "arr", np.broadcast_to(rb0, full).copy(), ub)
+        og = outcome_equal("np.array_equiv", unyt, a, b, {})
+        ot = outcome_equal("np.array_equiv", unyt, fa, fb, {})
+        rec.count("sub:shape-law:np.array_equiv")
+        if og[0] == ot[0]:
+            rec.ok(("shape-law", "np.array_equiv", rel, str(sa), str(sb), prof, ua.cls, ub.cls))
+        else:
+            rec.violation(f"C19:np.array_equiv:verdict-depends-on-operand-shape:{rel}",
+                          f"np.array_equiv({show(a)}, {show(b)}) is {og[1]}, with both operands written at shape {full} it is {ot[1]}",
+                          {"family": fam, "first": [ka, ua.s, list(sa)], "second": [kb, ub.s, list(sb)], "profile": prof})
+
+
+def shape_matrix(rec, unyt, r, fam, pool, wrong, npairs, which):
+    """enumerated: unit pairs (both orders) x shape pairs x tolerance spellings x placements; which: index of the ordered pair"""
+    pairs = shape_unit_pairs(pool, npairs)
+    if which >= len(pairs):
+        rec.note(f"shape-family-skipped:{fam}/{which}")
+        return
+    rec.reach("shape-family:" + fam)
+    state = {"n": 0}
+    for pi, (ua, ub, ut) in list(enumerate(pairs))[which:which + 1]:
+        for (sa, sb) in SG.SHAPE_PAIRS:
+            rec.reach(f"shape-pair:{sa}/{sb}")
+            for cfg in SG.TOL_CFGS:
+                rec.reach("shape-tolerances:" + cfg[0])
+                shape_cfg(rec, unyt, r, fam, ua, ub, ut, sa, sb, cfg, state)
+            if pi < 2:
+                shape_incommensurable(rec, unyt, r, fam, ua, wrong[(pi + len(sa)) % len(wrong)], sa, sb, CLOSE_FNS)
+            shape_equal(rec, unyt, r, fam, ua, ub, sa, sb, EQ_FNS)
+            if pi == 0:
+                shape_equal(rec, unyt, r, fam, ua, ua, sa, sb, EQ_FNS)
+                same = [u for u in pool if u.s != ua.s and unit_relation(ua, u) == "equal"]
+                if same:
+                    shape_equal(rec, unyt, r, fam, ua, same[0], sa, sb, EQ_FNS)
+    rec.sample({"shape-family": fam, "unit-pair": [u.s for u in pairs[which]], "shape-pairs": len(SG.SHAPE_PAIRS),
+                "tolerance-spellings": [c[0] for c in SG.TOL_CFGS]})
+
+
+def shape_random(rec, unyt, r, fam, pool, wrong, ncases):
+    """drawn: any two broadcastable shapes, any two units of the pool (equal ones too), operand kinds view/mul/restored"""
+    rec.reach("shape-family:" + fam)
+    state = {"n": r.randrange(12)}
+    done = 0
+    for _ in range(ncases * 6):
+        if done >= ncases:
+            break
+        sa, sb = r.choice(SG.RANDOM_SHAPES), r.choice(SG.RANDOM_SHAPES)
+        if not SG.broadcastable(sa, sb) or (sa == sb and r.random() < 0.8):
+            continue
+        done += 1
+        ua, ub, ut = r.choice(pool), r.choice(pool), r.choice(pool)
+        cfg = r.choice(SG.TOL_CFGS)
+        labels = None if r.random() < 0.3 else set(r.sample(["equal", "well-inside", "just-inside", "just-outside-smaller-reading",
+                                                             "between-readings", "just-inside-larger-reading", "just-outside",
+                                                             "well-outside", "far-outside"], 3))
+        shape_cfg(rec, unyt, r, fam, ua, ub, ut, sa, sb, cfg, state, plain=False, only_labels=labels)
+        if r.random() < 0.2:
+            shape_equal(rec, unyt, r, fam, ua, ub, sa, sb, EQ_FNS)
+        if r.random() < 0.1:
+            shape_incommensurable(rec, unyt, r, fam, ua, r.choice(wrong), sa, sb, CLOSE_FNS)
+
+
 # ------------------------------------------------------------------------------------------------ accepts / returns
 SENT = object()
 
@@ -1279,6 +1559,15 @@ def batches(tier, seed):
             b.append((f"hist-deco/s{sd}/{i}", ("hist-deco", c, sd, 0 if quick else 1)))
         for i, c in enumerate(chunks(fams, 4 if quick else 12)):
             b.append((f"hist-close/s{sd}/{i}", ("hist-close", c, sd, 0 if quick else 1)))
+    # operand shape asymmetry: enumerated per family (seed-independent) and drawn
+    # (the thorough tier is three times the quick one here: the mechanism does not depend on the unit family)
+    sfams = SHAPE_QUICK_FAMS if quick else SHAPE_QUICK_FAMS + SHAPE_MORE_FAMS
+    for f in sfams:
+        for k in range(2 if quick else 3):      # one batch per ordered unit pair: (u0,u1), (u1,u0), (u0,u2)
+            b.append((f"shape/{f}/{k}", ("shape", [f], 0, (2 if quick else 4, k))))
+    for sd in seeds:
+        for i, c in enumerate(chunks([f for f in QUICK_FAMS if f != "temperature"], 4)):
+            b.append((f"shape-random/s{sd}/{i}", ("shape-random", c, sd, 12)))
     b.append(("catalogue", ("catalogue", [], 0, None)))
     return b
 
@@ -1406,6 +1695,21 @@ def _worker(unyt, rec, bid, part, items, seed, size, r):
                 equal_cases(rec, unyt, r, fam, pool, wrong, size[1], EQ_FNS)
                 rec.sample({"equal-family": fam, "pool": [u.s for u in pool][:6]})
         return
+    if part in ("shape", "shape-random"):
+        for fam in items:
+            pr = core.rng(0 if part == "shape" else seed, "pool", fam, part)
+            pool = build_pool(unyt, rec, ALLV[fam], 4 if part == "shape" else 6, pr, need_exact=True, allow_offset=False)
+            wrong = [w for w in wrong_pool_for(unyt, rec, fam, pr) if w.s is not None]
+            if len(pool) < 2 or not wrong:
+                rec.note(f"shape-family-skipped:{fam}")
+                continue
+            for u in pool:
+                rec.reach("spelling-class:" + u.cls)
+            if part == "shape":
+                shape_matrix(rec, unyt, r, fam, pool, wrong, size[0], size[1])
+            else:
+                shape_random(rec, unyt, r, fam, pool, wrong, size)
+        return
     if part == "deco":
         n_ok, n_bad = size
         T = templates([])
@@ -1479,6 +1783,11 @@ def _worker(unyt, rec, bid, part, items, seed, size, r):
 SUBS = [f"sub:{fn}:{e}-expected" for fn in CLOSE_FNS + EQ_FNS + ("accepts", "returns") for e in ("accept", "refuse")]
 SUBS += [f"sub:history:{fn}:{e}-expected" for fn in CLOSE_FNS + EQ_FNS + ("accepts", "returns") for e in ("accept", "refuse")]
 SUBS += ["sub:history:fresh-compared"]
+# operand shape asymmetry: SI verdicts per helper, the broadcast law per helper (and on values between the two readings of a
+# bare/default atol, where only the law can speak), and every size relation of the two operands
+SUBS_SHAPE = [f"sub:shape:{fn}:{e}-expected" for fn in CLOSE_FNS + EQ_FNS for e in ("accept", "refuse")]
+SUBS_SHAPE += [f"sub:shape-law:{fn}" for fn in CLOSE_FNS + ("np.array_equiv",)] + ["sub:shape-law:between-readings"]
+SUBS_SHAPE += [f"sub:shape-rel:{rel}" for rel in ("first-smaller", "second-smaller", "same-size", "same-shape")]
 
 
 def extra(tier, seed, results):
@@ -1492,6 +1801,8 @@ def extra(tier, seed, results):
     for k in SUBS:
         k2 = k.replace("accepts:accept", "accepts:pass").replace("returns:accept", "returns:pass")
         subs[k2] = counters.get(k2, 0)
+    for k in SUBS_SHAPE:
+        subs[k] = counters.get(k, 0)
     names = module_dimension_names(unyt)
     unreached = [n for n in names if "dim:" + n not in reached]
     fams = [f for f in fam_vectors(tier) if "family:" + f not in reached]
@@ -1499,6 +1810,7 @@ def extra(tier, seed, results):
     cat += ["spelling-class:" + c for c in ("atomic", "prefixed", "alias", "alias-prefixed", "base-si", "base-cgs", "base-imp", "base-pow",
                                             "base-sqrt", "base-mix", "named-compound", "ratio", "offset:atomic")]
     cat += [f"history-scenario:{k}/{sc}" for k in ("deco", "close") for sc in HG.SCENARIOS]
+    cat += [f"shape-pair:{sa}/{sb}" for sa, sb in SG.SHAPE_PAIRS] + ["shape-tolerances:" + c[0] for c in SG.TOL_CFGS]
     call_forms = [c for c in cat if c not in reached]
     ok_batches = sum(1 for _, res in results if res.get("status") == "ok")
     zero = [k for k, v in subs.items() if v == 0]
@@ -1509,4 +1821,5 @@ def extra(tier, seed, results):
             "sub_monitor_evaluations": subs, "unreached": {"dimension-names": unreached, "families": fams, "call-forms-and-spelling-classes": call_forms},
             "helper_calls": {k[6:]: v for k, v in counters.items() if k.startswith("calls:")},
             "histories": {k[8:]: v for k, v in counters.items() if k.startswith("history:")},
+            "shape_asymmetry": {k: v for k, v in counters.items() if k.startswith(("sub:shape", "calls:shape"))},
             "discarded": {k: v for k, v in counters.items() if k.startswith("discarded") or k.startswith("pool-dropped")}}
